@@ -69,6 +69,16 @@ func c01Body(c *explore.C, ff *flatFamily, tier universe.Tier) {
 	enc := buf[:r.N]
 	dst := universe.New(s, nil)
 	d := Dec(enc, dst.Interface())
+	if ref.NilRequired(s, v) {
+		// outside the round-trip domain: a nil pointer to a struct with required fields is written as an
+		// empty struct, which C09 obliges the decoder to reject; only that consequence is checked here
+		if d.Panic != nil || d.Err == nil {
+			c.Fail(fmt.Sprintf("a message lacking required fields (nil pointer to a struct declaring them) is not rejected: %v", d), mkCase("C01", "nil-required-accepted", s, v, enc, d.String()))
+			return
+		}
+		harness.Cur.Outcome(harness.Hash64([]byte{byte(cc.ti), byte(cc.ti >> 8)}, enc), "nil-required/rejected")
+		return
+	}
 	if d.Panic != nil || d.Err != nil {
 		c.Fail(fmt.Sprintf("DecodeObject failed on frugal's own encoding: %v", d), mkCase("C01", "decode-failed", s, v, enc, d.String()))
 		return
@@ -147,7 +157,7 @@ func c02Body(c *explore.C, ff *flatFamily, tier universe.Tier) {
 	hooks.Reset()
 	src := universe.New(s, v)
 	want := ref.Encode(s, v)
-	exp := ref.Decode(s, want, nil, ref.DecOpts{})
+	exp := ref.Decode(s, want, nil, ref.DecOpts{IgnoreRequired: ref.NilRequired(s, v)})
 	if !exp.OK || exp.N != len(want) {
 		panic(fmt.Sprintf("harness error: reference decoder rejects the reference encoding (%v) for %s", exp.Err, s))
 	}
@@ -372,7 +382,7 @@ func c16Body(c *explore.C, ff *flatFamily, tier universe.Tier) {
 	keep := append([]byte{}, in...)
 	dst := universe.New(s, nil)
 	d := Dec(in, dst.Interface())
-	if d.Panic != nil || d.Err != nil {
+	if (d.Panic != nil || d.Err != nil) && !(d.Panic == nil && ref.NilRequired(s, v)) { // a rejected message (see C01) must be left unmodified too
 		c.Fail(fmt.Sprintf("DecodeObject failed on the reference encoding: %v", d), mkCase("C16", "decode-failed", s, v, want, nil))
 		return
 	}
